@@ -145,12 +145,15 @@ def run_e3(pid, step, tier, seed):
 
 # ------------------------------------------------------------------ E2 (Kani)
 def run_kani(pid, step, tier):
+    """One Kani harness on the real crate (hook H0b includes /verif/kani/harnesses.rs under cfg(kani)).  On failure the
+    counterexample Kani prints (concrete playback) becomes the failing input; the replay runs the same harness body
+    natively on those values."""
     t0 = time.time()
     h = step['harness']
     out = dict(name='kani:' + h, kind='kani', inconclusive=[], failures=[], obligations=1, discharged=0, samples=[], trusted=[],
-               assumptions=['Kani/CBMC: termination not checked'], solver=[])
+               assumptions=['Kani/CBMC: termination not checked; bit-precise machine arithmetic; loops unwound to the stated constant bound with unwinding assertions'], solver=[])
     tdir = os.path.join(CACHE, 'kani-target')
-    cmd = ['cargo', 'kani', '--manifest-path', os.path.join(REPO, 'Cargo.toml'), '--target-dir', tdir, '-Z', 'function-contracts', '-Z', 'stubbing',
+    cmd = ['cargo', 'kani', '--manifest-path', os.path.join(REPO, 'Cargo.toml'), '--target-dir', tdir, '-Z', 'concrete-playback', '--concrete-playback=print',
            '--harness', h] + step.get('args', [])
     try:
         p = subprocess.run(cmd, capture_output=True, text=True, timeout=step.get('timeout', 1800), env=ENV, cwd=REPO)
@@ -161,18 +164,24 @@ def run_kani(pid, step, tier):
     txt = p.stdout + p.stderr
     ok = 'VERIFICATION:- SUCCESSFUL' in txt
     failed = 'VERIFICATION:- FAILED' in txt
-    cover_bad = re.findall(r'Status: (UNSATISFIABLE|UNREACHABLE)\s*\n\s*- Description: "?cover', txt)
     m = re.search(r'Verification Time: ([0-9.]+)s', txt)
-    out['solver'].append(dict(function=h, backend='kani/cbmc', ms=int(float(m.group(1)) * 1000) if m else None))
-    if ok and not cover_bad:
+    nchecks = re.search(r'\*\* (\d+) of (\d+) failed', txt)
+    out['solver'].append(dict(function=h, backend='kani 0.68 / cbmc', ms=int(float(m.group(1)) * 1000) if m else None, checks=int(nchecks.group(2)) if nchecks else None))
+    if ok and nchecks and int(nchecks.group(2)) > 0:
         out['discharged'] = 1
-        out['samples'] = ['kani harness %s: VERIFICATION SUCCESSFUL' % h]
+        out['samples'] = ['kani harness %s: %s checks, VERIFICATION SUCCESSFUL' % (h, nchecks.group(2))]
     elif failed:
         fails = re.findall(r'Check \d+: (\S+)\s*\n\s*- Status: FAILURE\s*\n\s*- Description: "([^"]*)"', txt)
+        vals = None
+        pb = re.search(r'let concrete_vals: Vec<Vec<u8>> = vec!\[(.*?)\];\s*kani::concrete_playback_run', txt, re.S)
+        if pb:
+            vals = [[int(x) for x in re.findall(r'\d+', v)] for v in re.findall(r'vec!\[([^\]]*)\]', pb.group(1))]
+        inp = dict(kani_harness=h, values=vals) if vals is not None else None
         out['failures'].append(dict(obligation='kani/%s' % h, detail='; '.join('%s: %s' % f for f in fails[:5]) or 'verification failed',
-                                    verifier_output=[txt[-3000:]], input=None))
-    elif cover_bad:
-        out['inconclusive'].append('kani cover not satisfied (vacuous harness)')
+                                    verifier_output=[txt[-3000:]], input=inp, input_sha=sha(json.dumps(inp, sort_keys=True)) if inp else None,
+                                    observed='counterexample (Kani concrete playback): %s' % vals if vals is not None else None))
+    elif ok:
+        out['inconclusive'].append('kani reported success over zero checks (vacuous harness)')
     else:
         out['inconclusive'].append('kani gave no verdict: ' + txt[-800:])
     out['wall'] = time.time() - t0
@@ -196,7 +205,7 @@ def run_step(pid, step, tier, seed):
 def replay(pid, path):
     rec = json.load(open(path))
     print('replay of %s: obligation %s' % (pid, rec.get('obligation')))
-    if rec.get('failing_input') is not None and str(rec.get('step', '')).startswith('e3:'):
+    if rec.get('failing_input') is not None and (str(rec.get('step', '')).startswith('e3:') or str(rec.get('step', '')).startswith('kani:')):
         exe, err = harness_bin(True)
         if not exe:
             print('harness build failed', err, file=sys.stderr)
